@@ -47,7 +47,7 @@ pub fn check(cx: &Cx, rep: &mut Report) {
                 if m.b > acc {
                     rep.premise("C04.R2.after_stop_unhandled");
                     nontrivial = true;
-                    if let Some(v) = ix.inv_of.get(&m.msg) {
+                    if let Some(v) = ix.inv_of.get(&m.msg).filter(|_| m.msg != 0) {
                         rep.fail(P, "R2", format!("handled_after_stop={:?}", m.path), format!("msg {} submitted at #{} after an accepted stop request returned at #{acc} was handled at #{}", m.msg, m.b, ix.invs[v[0]].i), vec![acc, m.b, ix.invs[v[0]].i]);
                     }
                     if matches!(m.op, OpK::Call | OpK::Ping) && matches!(m.res, Some(Res::Ok | Res::Reply { .. })) {
@@ -55,7 +55,7 @@ pub fn check(cx: &Cx, rep: &mut Report) {
                     }
                 } else if af.first_stop_b().map(|b| m.e.map(|e| e > b).unwrap_or(true)).unwrap_or(false) {
                     // R6: concurrent with the stop: unconstrained, counted
-                    if ix.inv_of.contains_key(&m.msg) {
+                    if m.msg != 0 && ix.inv_of.contains_key(&m.msg) {
                         rep.count("C04.R6.concurrent_handled", 1);
                     } else {
                         rep.count("C04.R6.concurrent_unhandled", 1);
